@@ -304,6 +304,37 @@ def run(ctx: Ctx) -> int:
                     continue
                 ctx.oblige("C19.c", ok, c, f"content loaded from `{pname}` is interpreted inside change_to_path_dir({pname})" if ok else f"{leaf}(...) interprets a config loaded from `{pname}` outside `with change_to_path_dir({pname})`: relative paths inside it resolve against the process cwd", fn=fn)
     ctx.floor("C19.c", n_sites, 7)
+    # a configuration read from a file is MERGED inside that file's directory too: merge_config adapts the file's
+    # 'key+' appends (ActionTypeHint.apply_appends), and their relative paths belong to the file
+    n_mf = 0
+    for fref in ("_actions:ActionConfigFile.apply_config", "_core:ArgumentParser.get_defaults"):
+        fn = ctx.func(fref)
+        gf = ctx.cfg(fn)
+        loaded = {}
+        for s in walk_local(fn):
+            if isinstance(s, ast.Assign) and isinstance(s.targets[0], ast.Name) and isinstance(s.value, ast.Call):
+                leaf = call_leaf(s.value)
+                if leaf == "parse_path" and s.value.args and isinstance(s.value.args[0], ast.Name):
+                    # the Path local built from the same input
+                    pl = [d.targets[0].id for d in walk_local(fn) if isinstance(d, ast.Assign) and isinstance(d.value, ast.Call) and call_leaf(d.value) == "Path" and d.value.args and isinstance(d.value.args[0], ast.Name) and d.value.args[0].id == s.value.args[0].id and isinstance(d.targets[0], ast.Name)]
+                    pl += [d.target.id for d in walk_local(fn) if isinstance(d, ast.AnnAssign) and isinstance(d.value, ast.Call) and call_leaf(d.value) == "Path" and d.value.args and isinstance(d.value.args[0], ast.Name) and d.value.args[0].id == s.value.args[0].id and isinstance(d.target, ast.Name)]
+                    if pl:
+                        loaded[s.targets[0].id] = pl[0]
+                if leaf == "_load_config_parser_mode" and s.value.args and "get_content" in ast.unparse(s.value.args[0]):
+                    loaded[s.targets[0].id] = root_name(s.value.args[0])
+        for c in calls_in(fn):
+            if call_leaf(c) == "merge_config" and c.args and isinstance(c.args[0], ast.Name) and c.args[0].id in loaded:
+                n_mf += 1
+                pname = loaded[c.args[0].id]
+                ok = any(isinstance(it.context_expr, ast.Call) and call_leaf(it.context_expr) == "change_to_path_dir" and it.context_expr.args and root_name(it.context_expr.args[0]) == pname for _, it in enclosing_withs(c, stop=fn))
+                ctx.oblige(
+                    "C19.c",
+                    ok,
+                    c,
+                    f"the configuration read from `{pname}` is merged inside change_to_path_dir({pname})" if ok else f"the configuration read from `{pname}` is merged outside its directory: a `key+: [relative/path]` append written in that file is adapted during the merge and resolves against the process working directory",
+                    fn=fn,
+                )
+    ctx.floor("C19.c-file-merges", n_mf, 2)
     # relative_path_context is change_to_path_dir(self)
     rpc = ctx.func("_util:Path.relative_path_context")
     ok = any(isinstance(it.context_expr, ast.Call) and call_leaf(it.context_expr) == "change_to_path_dir" and root_name(it.context_expr.args[0]) == "self" for w in walk_local(rpc) if isinstance(w, ast.With) for it in w.items)
